@@ -77,6 +77,11 @@ def r11_1(chk):
 
 
 def _child_loop(fn, edge):
+    """the loop whose variable is handed to the recursive call (= the loop over the children)"""
+    for lp in walk_no_nested(fn):
+        if isinstance(lp, ast.For) and isinstance(lp.target, ast.Name):
+            if any(isinstance(c, ast.Call) and call_name(c) == fn.name and c.args and norm(c.args[0]) == lp.target.id for c in ast.walk(lp)):
+                return lp
     for lp in walk_no_nested(fn):
         if isinstance(lp, ast.For) and isinstance(lp.target, ast.Name) and "children" in norm(lp.iter):
             return lp
